@@ -70,6 +70,7 @@ def tasks(tier, seed):
         T.append(('bc', d, order, 'dirichlet', False, st, None))
     for d, steps in ((1, [-2, 0, 1]), (1, [-1, 0, 2, 3]), (2, [-1, 0, 1, 2]), (1, [-3, -1, 0, 1]), (1, [0, 1, -1]), (1, [1, 2, -1, 0])):
         T.append(('bc', d, len(steps) - d, 'dirichlet', False, None, steps))
+    T.append(('bcdefaults',))
     T.append(('kron', 2))
     T.append(('kron', 3))
     T.append(('grid',))
@@ -85,6 +86,8 @@ def run_task(rep, task):
         bc_case(rep, *task[1:])
     elif task[0] == 'kron':
         kron_case(rep, task[1])
+    elif task[0] == 'bcdefaults':
+        bcdefaults_case(rep)
     elif task[0] == 'grid':
         grid_case(rep)
 
@@ -153,6 +156,39 @@ def real_matrix(d, order, st, steps, size, dim, bc, bc_params=None, dx=0.25):
     A, b = get_finite_difference_matrix(derivative=d, order=order, stencil_type=st, steps=(np.array(steps) if steps is not None else None), dx=dx, size=size, dim=dim, bc=bc,
                                         bc_params=bc_params)
     return np.asarray(A.todense(), dtype=float), np.asarray(b, dtype=float)
+
+
+def bcdefaults_case(rep):
+    """boundary parameters that are left out take their documented defaults (val 0, reduce False, neumann_bc_order = order), independently per side:
+    the real matrix / vector for partially given per-side dictionaries equal those for the fully spelled-out dictionaries (ENUMERATED, concrete)"""
+    variants = [{}, {'val': 2.5}, {'reduce': True}, {'val': 1.5, 'reduce': True}, {'neumann_bc_order': 1}, {'val': -0.5, 'neumann_bc_order': 1}]
+    for d, order in ((1, 2), (2, 2), (2, 4)):
+        full = lambda p: {'val': 0.0, 'reduce': False, 'neumann_bc_order': order, **p}
+        for bc in ('dirichlet', 'neumann', ('dirichlet', 'neumann'), ('neumann', 'dirichlet')):
+            for left in variants:
+                for right in variants:
+                    name = f'bcdefaults/d{d}/o{order}/{bc}/{left}/{right}'
+                    try:
+                        kw = dict(derivative=d, order=order, stencil_type='center', dx=0.25, size=9, dim=1, bc=bc)
+                        A1, b1 = get_finite_difference_matrix(bc_params=[dict(left), dict(right)], **kw)
+                        A2, b2 = get_finite_difference_matrix(bc_params=[full(left), full(right)], **kw)
+                        ok = np.array_equal(A1.toarray(), A2.toarray()) and np.array_equal(b1, b2)
+                        rep.translator += 1
+                        if not ok:
+                            rep.violation(f'{PID}/boundary-parameter-defaults', f'{name}: matrix / vector differ from those of the spelled-out parameters {full(left)}, {full(right)}; '
+                                          f'b = {np.asarray(b1).tolist()} vs {np.asarray(b2).tolist()}', {'task': ['bcdefaults'], 'd': d, 'order': order, 'bc': bc if isinstance(bc, str) else list(bc), 'left': left, 'right': right})
+                            return
+                    except Exception as e:
+                        rep.side(name, False, f'{type(e).__name__}: {e}')
+                        return
+            for one in variants:  # one dictionary for both sides / no dictionary at all
+                kw = dict(derivative=d, order=order, stencil_type='center', dx=0.25, size=9, dim=1, bc=bc)
+                A1, b1 = get_finite_difference_matrix(bc_params=dict(one), **kw)
+                A2, b2 = get_finite_difference_matrix(bc_params=[full(one), full(one)], **kw)
+                rep.side(f'bcdefaults/d{d}/o{order}/{bc}/both={one}', np.array_equal(A1.toarray(), A2.toarray()) and np.array_equal(b1, b2))
+            A1, b1 = get_finite_difference_matrix(bc_params=None, **kw)
+            A2, b2 = get_finite_difference_matrix(bc_params=[full({}), full({})], **kw)
+            rep.side(f'bcdefaults/d{d}/o{order}/{bc}/none', np.array_equal(A1.toarray(), A2.toarray()) and np.array_equal(b1, b2))
 
 
 def periodic_case(rep, d, order, st, steps):
@@ -336,6 +372,14 @@ def replay(path):
         ex = np.array([sum(w[i] / 0.25 ** t[1] * uv[(j + int(s[i])) % d['size']] for i in range(len(s))) for j in range(d['size'])])
         print('observed', got.tolist(), 'expected', ex.tolist())
         bad = np.abs(got - ex).max() > 1e-9 * (1 + np.abs(ex).max())
+    elif t[0] == 'bcdefaults':
+        bc = d['bc'] if isinstance(d['bc'], str) else tuple(d['bc'])
+        full = lambda p: {'val': 0.0, 'reduce': False, 'neumann_bc_order': d['order'], **p}
+        kw = dict(derivative=d['d'], order=d['order'], stencil_type='center', dx=0.25, size=9, dim=1, bc=bc)
+        A1, b1 = get_finite_difference_matrix(bc_params=[dict(d['left']), dict(d['right'])], **kw)
+        A2, b2 = get_finite_difference_matrix(bc_params=[full(d['left']), full(d['right'])], **kw)
+        print('b (partial dictionaries)', np.asarray(b1).tolist(), 'b (spelled out)', np.asarray(b2).tolist())
+        bad = not (np.array_equal(A1.toarray(), A2.toarray()) and np.array_equal(b1, b2))
     else:
         print(d)
         bad = True
